@@ -21,7 +21,7 @@ PROPS = {
         level_text="Exploration: thousands of generated record sequences x partitions x page sizes x codecs through code regenerated from the "
                    "working tree's templates; holds on everything explored, no proof of absence.",
         level_note="Trusted: Go toolchain, rapid, the harness's reflection bridge (vt). Bounds: <=150 records/case, lists <=700, strings <=300 bytes, fixtures flat24/nest/tiny.",
-        fixtures=["flat24", "nest", "tiny"],
+        fixtures=["flat24", "nest", "tiny", "rep3"],
         gen_anchored=True,
         stages=[dict(test="TestC01", kind="rapid", quick=2400, thorough=48000)],
         replay="TestReplayC01",
@@ -40,7 +40,7 @@ PROPS = {
                    "judged by a parser written from the format specification that accounts for every byte. No proof of absence.",
         level_note="Trusted: pqref (independent thrift compact + Parquet walker), golang/snappy and compress/gzip for decompression. "
                    "Not demanded: ColumnMetaData.encodings content, created_by, statistics content (C12).",
-        fixtures=["flat24", "nest", "tiny", "deep", "samename"],
+        fixtures=["flat24", "nest", "tiny", "deep", "samename", "rep3"],
         gen_anchored=True,
         stages=[dict(test="TestC02", kind="rapid", quick=2400, thorough=48000)],
         replay="TestReplayC02",
@@ -60,7 +60,7 @@ PROPS = {
                    "lab stage, on every compiling shape of the bounded grammar; rep/def levels and values read from the file by an independent parser "
                    "are compared entry by entry with the canonical striping, then reassembled by a spec-only assembler.",
         level_note="Trusted: pqref's shredder/assembler (written from the Dremel definitions, self-tested as inverses) and page parser.",
-        fixtures=["flat24", "nest", "tiny", "deep", "samename"],
+        fixtures=["flat24", "nest", "tiny", "deep", "samename", "rep3"],
         gen_anchored=True,
         stages=[dict(test="TestC03", kind="rapid", quick=2400, thorough=48000)],
         replay="TestReplayC03",
@@ -82,7 +82,7 @@ PROPS = {
         gen_anchored=True,
         stages=[dict(test="TestC12", kind="rapid", quick=3200, thorough=64000)],
         replay="TestReplayC12",
-        rule="rapid workloads on flat24/nest/tiny with a value class per case in {mixed, neg, tiny, nan, sentinel}, null probability in "
+        rule="rapid workloads on flat24/nest/tiny with a value class per case in {mixed, neg, tiny, nan, sentinel, longstr (60..146-byte strings sharing long prefixes)}, null probability in "
              "{10,33,80}%, page size 1..8 for half the cases; each page's Statistics (min_value/max_value and legacy min/max if present, "
              "null_count) is checked against the page's own values decoded by pqref: null_count = #(def < max) for columns with levels (absent or 0 "
              "for required), min <= v <= max for every non-null non-NaN v in the column order (signed / unsigned via converted type / IEEE / bytewise), "
@@ -94,12 +94,12 @@ PROPS = {
         level_text="Exploration: for generated valid files the three introspection calls are compared field by field with what an independent "
                    "thrift decoder and page walker find in the same bytes.",
         level_note="Trusted: pqref. The library's thrift schema predates RowGroup fields 5..7, which are therefore not compared.",
-        fixtures=["flat24", "nest", "tiny", "deep", "samename"],
+        fixtures=["flat24", "nest", "tiny", "deep", "samename", "rep3"],
         gen_anchored=False,
-        stages=[dict(test="TestC16", kind="rapid", quick=2400, thorough=48000)],
+        stages=[dict(test="TestC16", kind="rapid", quick=2400, thorough=48000), dict(test="TestC16Foreign", kind="rapid", quick=1600, thorough=32000)],
         replay="TestReplayC16",
-        rule="rapid workloads (as C01, <= 80 records) on five fixtures and three codecs, plus (stage 2, when the foreign writer is available) conformant foreign "
-             "files carrying optional footer fields; ReadMetaData converted field by field must equal pqref's footer decode; PageHeaders must equal the walker's "
+        rule="rapid workloads (as C01, <= 80 records) on five fixtures and three codecs, plus (stage 2) conformant foreign "
+             "files from pqref's writer carrying optional footer/page-header fields (created_by, key/value metadata, column_orders, encoding_stats, column statistics, crc, legacy min/max); ReadMetaData converted field by field must equal pqref's footer decode; PageHeaders must equal the walker's "
              "list of data-page headers in file order incl. statistics; PageHeadersAtOffset(data_page_offset, num_values) must equal the chunk's headers and, started "
              "at page j with the remaining value count, the tail (first three and last two start pages of every chunk). Non-trivial: >= 2 row groups and a chunk with >= 2 pages; distinct by case hash.",
     ),
@@ -221,7 +221,7 @@ PROPS = {
                    "per-column codecs, hand-rolled snappy streams, optional thrift fields present/absent, non-zero padding bits); it must return the logical content.",
         level_note="Trusted: pqref's foreign writer; every foreign file is first validated by pqref's own walker and reassembled by the reference assembler (failure => exit 2, not a violation). "
                    "Layout limits of the documented subset are respected: v1 data pages, PLAIN, chunks contiguous from byte 4 in schema order.",
-        fixtures=["flat24", "nest", "tiny"],
+        fixtures=["flat24", "nest", "tiny", "rep3"],
         gen_anchored=True,
         stages=[dict(test="TestC04", kind="rapid", quick=2400, thorough=48000)],
         replay="TestReplayC04",
